@@ -522,6 +522,45 @@ class Machine(RuleBasedStateMachine):
         self.add_formula(e, key, rnd, "mixed")
         self.run.cls("rule:rebuild")
 
+    @rule(rnd=st.randoms(use_true_random=True), e=st.integers(0, 2), other=st.integers(0, 2))
+    def rebuild_inside_nested_blocks(self, rnd, e, other):
+        """`with env:` blocks nest in any order (an environment may be entered again while it is lower on the stack):
+        after an inner block is left, the routes that go through the current environment (infix operators, shortcuts)
+        build in the environment of the enclosing block."""
+        if not self.model[e] or other == e:
+            return
+        from pysmt.environment import get_env
+        import pysmt.shortcuts as sc
+        keys = list(self.model[e].keys())
+        key = keys[rnd.randrange(len(keys))]
+        env, oth = self.envs[e], self.envs[other]
+        before = get_env()
+        with oth:
+            with env:
+                with oth:
+                    inner = get_env()
+                cur = get_env()
+                if cur is env:
+                    syms = [k for k in keys if k[0] == "SYMBOL" and not is_fun(k[1][1])][:3]
+                    for k in syms:
+                        o = sc.Symbol(k[1][0], pys.to_ptype(env, k[1][1]))
+                        if o is not self.model[e][k]:
+                            self.fail("two-objects-one-structure", {"key": k, "route": "shortcut in nested blocks"},
+                                      "Symbol(%r) through the shortcut inside nested with-blocks is not the environment's symbol" % (k[1][0],))
+            back = get_env()
+        self.run.cls("rule:nested-blocks")
+        self.run.case(key=("nested", e, other, key), nontrivial=True)
+        if inner is not oth or cur is not env or back is not oth or get_env() is not before:
+            self.fail("current-environment", {"env": e, "other": other},
+                      "with B: with A: with B: pass -> current environment inside / after the inner block / after A's block / at the end: "
+                      "%s / %s / %s / %s" % (inner is oth, cur is env, back is oth, get_env() is before))
+            return
+        with oth:
+            with env:
+                with oth:
+                    pass
+                self.add_formula(e, key, rnd, "mixed")
+
     @rule(rnd=st.randoms(use_true_random=True), e=st.integers(0, 2))
     def pow_of_constants(self, rnd, e):
         """Pow over two constants: folded exactly when the exponent is an integer (and 0 is not raised to a negative
@@ -722,6 +761,7 @@ def main():
     chk.floor("rule:normalize", 300)
     chk.floor("rule:rebuild", 300)
     chk.floor("rule:derived", 300)
+    chk.floor("rule:nested-blocks", 200)
     chk.floor("pow:fractional-exponent", 50)
     chk.floor("derived:BVRepeat", 20)
     return chk.finish()
